@@ -558,7 +558,17 @@ func c09Call(e *Env, a *actor, c *CallRec, log *[]*gEvent, evCount []int) {
 		}
 		cls := classifyErr(c.Err)
 		if c.Res.Count == 1 {
+			// the stream's position is the delivered event
+			if i := indexOfID(*log, string(model.Bytes(c.Res.Docs[0]))); i >= 0 && i+1 > st.scanned {
+				st.scanned = i + 1
+			}
 			return
+		}
+		if cls == "ok" && c.Op.K == "trynext" && st.ended == "" {
+			// a poll that found nothing has examined every event that existed when it was invoked
+			if n := evCount[min(c.InvCom, len(evCount)-1)]; n > st.scanned {
+				st.scanned = n
+			}
 		}
 		switch cls {
 		case "ok":
@@ -583,8 +593,10 @@ func c09Call(e *Env, a *actor, c *CallRec, log *[]*gEvent, evCount []int) {
 						oldest = i
 					}
 				}
-				if oldest <= max(lo-1, 0) {
-					e.violate(violation("C09", "lost-position-without-loss", "", fmt.Sprintf("a stream (scope=%v start=%s) failed with a lost position although retention has not removed any event at or after its start position (oldest retained event %d, start position %d)", st.scope, st.op.Start, oldest, lo)))
+				// (st.scanned counts events: the stream has examined the events below that index, so its position is
+				// at least the event st.scanned-1, delivered or skipped as out of scope)
+				if oldest <= max(lo-1, st.scanned-1, 0) {
+					e.violate(violation("C09", "lost-position-without-loss", "", fmt.Sprintf("a stream (scope=%v start=%s) failed with a lost position although retention has not removed any event at or after its position (oldest retained event %d, start position %d, events examined %d)", st.scope, st.op.Start, oldest, lo, st.scanned)))
 				}
 			}
 		case "ctx-deadline":
